@@ -168,6 +168,16 @@ EXPRS_FULL = [
 ]
 EXPRS_SMALL = [X, Y, K1, ("ADD", X, Y), ("LT", X, Y), ("DIV", X, Y)]
 CONDS = [X, ("LT", X, Y), ("ISZERO", Y), ("EQ", X, K1)]
+# comparisons of a hash with itself plus a constant: halmos assumes `h + k` does not wrap for k < 2^64 (documented hash-range assumption) and
+# prunes that side without the solver; every other offset (negative, >= 2^64) must be decided on its merits
+_H = ("keccak1", X)
+HASH_CONDS = [
+    ("LT", ("SUB", _H, ("k", 5)), _H),                # h - 5 < h   : true for every real hash
+    ("LT", ("ADD", ("k", 5), _H), _H),                # h + 5 < h   : the overflow pattern itself, false
+    ("GT", _H, ("ADD", ("k", 2**256 - 1), _H)),       # h > h - 1
+    ("GT", _H, ("ADD", ("k", 2**255), _H)),           # h > h + 2^255 : true iff h >= 2^255
+    ("LT", ("ADD", ("k", 2**64), _H), ("keccak1", Y)),  # different hash terms
+]
 
 
 def statements(kind):
@@ -238,6 +248,9 @@ def statements(kind):
         for b in bodies if full else bodies[:3]:
             S.append(("if", c, b))
     S.append(("ifelse", ("LT", X, Y), [("mstore", 0, X)], [("mstore", 0, Y)]))
+    if full:
+        for c in HASH_CONDS:
+            S.append(("ifelse", c, [("out", K1)], [("out", K2)]))
     return S
 
 
